@@ -690,6 +690,22 @@ def r6(k: Kit) -> None:
                   g.describe_path(w) if w else None)
 
 
+def r7(k: Kit) -> None:
+    """NEWKEYS / KEXINIT are accepted only in the state that makes the
+    exchange hash meaningful (shared with C06.R3)."""
+    from .c06 import state_guards, CONN as C6
+    rep = k.rep
+    rep.rule('C03.R7', 'the peer\'s NEWKEYS is processed only while derived '
+             'keys are staged (otherwise only a protocol error), and a '
+             'KEXINIT only while no exchange is in progress: a NEWKEYS '
+             'injected into the cleartext handshake cannot be a no-op (same '
+             'state-guard rule as C06.R3)')
+    state_guards(k, 'C03.R7', [
+        (C6 + '_process_newkeys', 'self._next_recv_encryption', True),
+        (C6 + '_process_kexinit', 'self._kex', False),
+    ])
+
+
 def run(idx, rep, tier):
     k = Kit(idx, rep)
     rep.assumptions += NOT_DECIDED
@@ -704,3 +720,4 @@ def run(idx, rep, tier):
     r4(k)
     r5(k)
     r6(k)
+    r7(k)
